@@ -15,7 +15,10 @@ check('C03',
       'check_opt (weak duality with box bounds, sound for ANY multiplier vector), check_farkas. Every answer of optimize() on '
       'generated portfolios and synthetic problems (all row classes, duplicated mapping rows, boolean flags with non-0/1 bounds; all '
       'installed solvers in the thorough tier) is decided by these checkers inside Coq: bounds, rows, reported value, optimality '
-      '(LP), 0/1 flags, and infeasibility when failure is reported.',
+      '(LP), 0/1 flags, and infeasibility when failure is reported. Theorem C03_translation_equivalent: bounds as two vector constraints '
+      'plus rows grouped by class U/L/S/N have exactly the feasible points of the assembled problem; C03_boolean_variables: a variable '
+      'is boolean iff its first mapping row carries the flag; both are compared on every instance with what cvxpy actually receives '
+      '(Problem.solve wrapped inside the harness process).',
       TB + 'Optimality of MIP answers is only certified for feasibility/integrality/value (no branch-and-bound certificate yet); '
       'results flagged inaccurate make no claim.',
       'Coq-verified certificate checking (weak duality / Farkas) of every solver answer', 'DESIGN.md 4 C03')
